@@ -10,6 +10,7 @@ import (
 	"github.com/reactivego/ivg"
 	"github.com/reactivego/ivg/decode"
 	"github.com/reactivego/ivg/encode"
+	"github.com/reactivego/ivg/raster"
 	"github.com/reactivego/ivg/raster/vec"
 	"github.com/reactivego/ivg/render"
 
@@ -156,6 +157,18 @@ func c02Check(c *run.Ctx, st *c02State, b []byte, family string, salt uint64) []
 			}
 		})
 	}
+	// (i'') the logging wrapper on its own, without a wrapped destination, is a
+	// print-only recorder (each of its methods provides for that): same verdict,
+	// no panic
+	if salt%32 == 9 {
+		c.Count("decodes_into_a_bare_destination_logger", 1)
+		c.Guard("Decode(DestinationLogger without destination)", detail, func() {
+			lerr := decode.Decode(&ivg.DestinationLogger{Alt: salt%64 == 9}, b)
+			if (lerr == nil) != (err == nil) {
+				fail("accept-depends-on-destination", map[string]interface{}{"recorder": errStr(err), "bare_logger": errStr(lerr)})
+			}
+		})
+	}
 	// (ii) Encoder
 	c.Guard("Decode(Encoder)", detail, func() {
 		var e encode.Encoder
@@ -205,7 +218,13 @@ func c02Check(c *run.Ctx, st *c02State, b []byte, family string, salt uint64) []
 	capped := false
 	c.Guard("Decode(Renderer)", detail, func() {
 		var z render.Renderer
-		z.SetRasterizer(&st.rz, rect)
+		if (salt>>24)%16 == 3 {
+			// the recording rasterizer behind the public logging wrapper
+			c.Count("renders_through_rasterizer_logger", 1)
+			z.SetRasterizer(&raster.RasterizerLogger{Rasterizer: &st.rz}, rect)
+		} else {
+			z.SetRasterizer(&st.rz, rect)
+		}
 		defer func() {
 			// the cap sentinel is not a panic of the code under test
 			if r := recover(); r != nil {
